@@ -22,6 +22,7 @@ func (c *Cluster) finalChecks(spec *runSpec) {
 		}
 	}
 	c.finalStoreCheck()
+	c.continueShadows()
 	c.runOracles(true)
 	c.checkC05End()
 	if c.finalHook != nil {
